@@ -31,6 +31,15 @@ def replay(case):
         t = getattr(aes, case['table']); idx = case['index']
         got = t[idx].tolist() if idx != 'len' else len(t)
         return dict(reproduced=got != case['expected'], got=got, expected=case['expected'])
+    if kind == 'prim_history':
+        # keep results, call again on other states of the same shape, compare the kept results with the spec afterwards
+        import random as _r
+        rnd = _r.Random(11); f = getattr(aes, case['fn']); w = 4 if case['fn'] in ('mix_column', 'inv_mix_column') else 16
+        xs = [np.array([[rnd.randrange(256) for _ in range(w)] for _ in range(3)], dtype='uint8') for _ in range(4)]
+        kept = [f(x) for x in xs]; fresh = [np.array([PRIM[case['fn']]([int(v) for v in row]) for row in x], dtype='uint8') for x in xs]
+        for k, (a, b) in enumerate(zip(kept, fresh)):
+            if not np.array_equal(a, b): return dict(reproduced=True, detail='result %d of %s changed after later calls' % (k, case['fn']))
+        return dict(reproduced=False)
     if kind in ('prim', 'frame'):
         s = np.array(case['state'], dtype=case['dtype']); s0 = s.copy()
         out = getattr(aes, case['fn'])(s)
@@ -96,6 +105,17 @@ def bounded(n, seed):
         row = [rnd.randrange(256) for _ in range(w)]; ev += 1
         r = replay(dict(kind='prim', fn=name, dtype=dt, state=[row]))
         if r['reproduced']: fails.append(dict(kind='prim', fn=name, dtype=dt, state=[row]))
+    for name in PRIM:
+        ev += 1
+        if replay(dict(kind='prim_history', fn=name))['reproduced']: fails.append(dict(kind='prim_history', fn=name, detail='a result kept across calls changed'))
+    # results of stop points kept across calls (a list of intermediate states collected first, compared afterwards)
+    for mode in ('encrypt', 'decrypt'):
+        st = np.array([[rnd.randrange(256) for _ in range(16)] for _ in range(2)], dtype='uint8'); ky = np.array([rnd.randrange(256) for _ in range(16)], dtype='uint8')
+        f = getattr(aes, mode); kept = [(r, stp, f(st, ky, at_round=r, after_step=stp)) for r in range(11) for stp in range(4)]; ev += 1
+        for r, stp, got in kept:
+            exp = np.array([F.cipher([int(v) for v in row], F.round_keys([int(v) for v in ky]), mode, r, stp) for row in st], dtype='uint8')
+            if not np.array_equal(got, exp):
+                fails.append(dict(kind='cipher-kept', mode=mode, at_round=r, after_step=stp, detail='a stop-point state kept while later stop points were computed no longer equals the FIPS state')); break
     # _is_bytes_array refusals
     from scared._utils import _is_bytes_array
     for arr, ok in ((np.array([0, 255], dtype='int16'), True), (np.array([256], dtype='int16'), False), (np.array([-1], dtype='int64'), False), (np.array([1.0]), False)):
